@@ -273,6 +273,9 @@ func runC04(c *vx.Ctx) {
 	if c.Wants("routing-forks") {
 		c04Forks(c)
 	}
+	if c.Wants("two-zones") {
+		c04TwoZones(c)
+	}
 }
 
 func replayC04(c *vx.Ctx, v vx.Violation) string {
@@ -288,6 +291,9 @@ func replayC04(c *vx.Ctx, v vx.Violation) string {
 		}
 		d, _, _ := c04RunQHist(cs.Start, cs.Hist)
 		return d
+	}
+	if v.Part == "two-zones" {
+		return c04ReplayTwoZones(raw)
 	}
 	if v.Part == "routing-forks" {
 		var cs map[string]string
